@@ -137,6 +137,10 @@ class DelayModel:
             s = default_rng().uniform()
 
         var = s[s > mu]
+        if len(var) == 0:
+            # Degenerate distribution (a runtime of 0 gives sigma == 0, so
+            # every sample equals the mean): there is nothing to add.
+            return runtime
         rand_var = var[int(len(var)/2)]
         return rand_var
 
